@@ -7,6 +7,7 @@ both arms.  Parameters are leaves (a parameter that is also re-bound contributes
 from __future__ import annotations
 
 import ast
+import copy
 from typing import Dict, List, Optional
 
 from ..cfg import strip_cast
@@ -133,6 +134,49 @@ class Values:
             return f, env, e
         return f, env, e
 
+    def canon_at(self, f: FuncInfo, env, e: ast.AST, _depth: int = 0) -> str:
+        """canon() seen from the root function: parameters of a spliced helper are replaced by what the caller passed."""
+        txt = self.canon(f, e)
+        if not env or _depth > 6:
+            return txt
+        sc = self.an.scope(f)
+        tree = ast.parse(txt, mode="eval").body
+        vals = self
+
+        class Sub(ast.NodeTransformer):
+            def visit_Name(self, n: ast.Name):
+                if isinstance(n.ctx, ast.Load) and n.id in env and n.id in sc.params and not sc.defs.get(n.id):
+                    caller, arg, cenv = env[n.id]
+                    return ast.parse(vals.canon_at(caller, cenv, arg, _depth + 1), mode="eval").body
+                return n
+
+        return " ".join(ast.unparse(Sub().visit(tree)).split())
+
+    def tuple_return_var(self, f: FuncInfo, env, name: str):
+        """`a, b = helper(...)` with a spliced helper ending in `return x, y`: for name `a` the helper's frame and its
+        variable x -> (helper, helper env, 'x'); None when the name is not bound that way."""
+        from ..cfg import bind_args
+
+        sc = self.an.scope(f)
+        hows = sc.defs.get(name, [])
+        if len(hows) != 1 or hows[0][0] != "elt" or hows[0][1][0] != "assign":
+            return None
+        call, idx = strip_cast(hows[0][1][1]), hows[0][2]
+        if isinstance(call, ast.Await):
+            call = strip_cast(call.value)
+        t = self.an.spliced_at.get(id(call))
+        if t is None:
+            return None
+        rets = [r.value for r in _own_nodes(t.node) if isinstance(r, ast.Return) and r.value is not None]
+        names = set()
+        for r in rets:
+            if not (isinstance(r, ast.Tuple) and idx < len(r.elts) and isinstance(r.elts[idx], ast.Name)):
+                return None
+            names.add(r.elts[idx].id)
+        if len(names) != 1:
+            return None
+        return t, bind_args(call, t, f, env), names.pop()
+
     def same(self, a, b) -> bool:
         """Do two (function, env, expression) triples denote the same value?"""
         ta, tb = self.trace(*a), self.trace(*b)
@@ -179,6 +223,11 @@ class Values:
                 sc = vals.an.scope(f)
                 if n.id in sc.params:
                     return n
+                if n.id not in sc.defs and n.id in f.module.assigns and n.id.upper() == n.id:
+                    # a module-level constant (tuple of kinds, message text ...)
+                    mv = f.module.assigns[n.id]
+                    if not any(isinstance(x, (ast.Call, ast.Await, ast.Lambda)) for x in ast.walk(mv)):
+                        return copy.deepcopy(mv)
                 bs = vals.bindings(f, n.id)
                 if bs is not None and len(bs) == 1 and not any(
                         isinstance(x, ast.Await) or (isinstance(x, ast.Call) and not (isinstance(x.func, ast.Name) and x.func.id in ("len", "str", "int", "type", "repr", "cast")))
@@ -195,8 +244,6 @@ class Values:
                 if ast.unparse(n.test) == ast.unparse(n.body):
                     return ast.BoolOp(op=ast.Or(), values=[n.body, n.orelse])
                 return n
-
-        import copy
 
         out = Sub().visit(copy.deepcopy(strip_cast(e)))
         return " ".join(ast.unparse(ast.fix_missing_locations(out)).split())
